@@ -841,7 +841,13 @@ where
             match E::release() {
                 Op::Noop => {}
                 Op::Immutable(_) => shard.read().with(|shard| shard.release_immutable(&self.record)),
-                Op::Mutable(_) => shard.write().with(|mut shard| shard.release_mutable(&self.record)),
+                Op::Mutable(_) => shard.write().with(|mut shard| {
+                    // A lookup may have taken a new reference between the decrement above and this lock:
+                    // only the holder of the last reference releases (unpins) the record.
+                    if self.record.refs() == 0 {
+                        shard.release_mutable(&self.record)
+                    }
+                }),
             }
         }
     }
